@@ -1976,6 +1976,71 @@ def _append_loops_to_comprehensions(tree):
     return n[0]
 
 
+def _networkx_view_forms(tree):
+    """Two spellings of NetworkX look-ups are read in the form the rules are written for:
+    `{n: d[KEY] for n, d in G.nodes.items() if KEY in d}` (also over G.nodes(data=True)) is what nx.get_node_attributes(G, KEY)
+    is defined as, and `for attrs in G.nodes.values(): ...` is `for n in G.nodes: attrs = G.nodes[n]; ...`."""
+    alias = None
+    for st in tree.body:
+        if isinstance(st, ast.Import):
+            for a in st.names:
+                if a.name == "networkx":
+                    alias = a.asname or "networkx"
+    count = [0]
+
+    def nodes_view_items(it):
+        # G.nodes.items()  /  G.nodes(data=True)  ->  G
+        if isinstance(it, ast.Call) and isinstance(it.func, ast.Attribute) and it.func.attr == "items" and not it.args and not it.keywords and \
+                isinstance(it.func.value, ast.Attribute) and it.func.value.attr == "nodes":
+            return it.func.value.value
+        if isinstance(it, ast.Call) and isinstance(it.func, ast.Attribute) and it.func.attr == "nodes" and not it.args and len(it.keywords) == 1 and \
+                it.keywords[0].arg == "data" and isinstance(it.keywords[0].value, ast.Constant) and it.keywords[0].value.value is True:
+            return it.func.value
+        return None
+
+    class T(ast.NodeTransformer):
+        def visit_DictComp(self, node):
+            self.generic_visit(node)
+            if alias is None or len(node.generators) != 1:
+                return node
+            g = node.generators[0]
+            G = nodes_view_items(g.iter)
+            if G is None or not (isinstance(g.target, ast.Tuple) and len(g.target.elts) == 2 and all(isinstance(e, ast.Name) for e in g.target.elts)):
+                return node
+            k, d = g.target.elts[0].id, g.target.elts[1].id
+            if not (isinstance(node.key, ast.Name) and node.key.id == k and isinstance(node.value, ast.Subscript) and isinstance(node.value.value, ast.Name) and
+                    node.value.value.id == d and isinstance(node.value.slice, ast.Constant) and isinstance(node.value.slice.value, str)):
+                return node
+            key = node.value.slice.value
+            if not (len(g.ifs) == 1 and isinstance(g.ifs[0], ast.Compare) and len(g.ifs[0].ops) == 1 and isinstance(g.ifs[0].ops[0], ast.In) and
+                    isinstance(g.ifs[0].left, ast.Constant) and g.ifs[0].left.value == key and isinstance(g.ifs[0].comparators[0], ast.Name) and
+                    g.ifs[0].comparators[0].id == d):
+                return node
+            count[0] += 1
+            new = ast.Call(func=ast.Attribute(value=ast.Name(id=alias, ctx=ast.Load()), attr="get_node_attributes", ctx=ast.Load()),
+                           args=[G, ast.Constant(key)], keywords=[])
+            return ast.fix_missing_locations(ast.copy_location(new, node))
+
+        def visit_For(self, node):
+            self.generic_visit(node)
+            it = node.iter
+            if isinstance(node.target, ast.Name) and isinstance(it, ast.Call) and isinstance(it.func, ast.Attribute) and it.func.attr == "values" and not it.args and \
+                    not it.keywords and isinstance(it.func.value, ast.Attribute) and it.func.value.attr == "nodes":
+                count[0] += 1
+                kname = "_nk%d" % count[0]
+                view = it.func.value
+                first = ast.Assign(targets=[ast.Name(id=node.target.id, ctx=ast.Store())],
+                                   value=ast.Subscript(value=copy.deepcopy(view), slice=ast.Name(id=kname, ctx=ast.Load()), ctx=ast.Load()))
+                ast.copy_location(first, node)
+                node.target = ast.copy_location(ast.Name(id=kname, ctx=ast.Store()), node.target)
+                node.iter = view
+                node.body = [first] + node.body
+                ast.fix_missing_locations(node)
+            return node
+    T().visit(tree)
+    return count[0]
+
+
 def inline_module(tree, modname):
     sym_helpers = _symbol_helpers_to_predicates(tree, modname)
     n_rec = _namedtuples_to_tuples(tree)
@@ -1991,6 +2056,9 @@ def inline_module(tree, modname):
         inl.known = set(inl.known) | sym_helpers
     tree = inl.run()
     n_app = _append_loops_to_comprehensions(tree) if inl.known is not None else 0
+    n_nxf = _networkx_view_forms(tree) if inl.known is not None else 0
+    if n_nxf:
+        inl.report.append("%d NetworkX look-ups spelled out (attribute dict comprehension, nodes.values() loop) read in their library form" % n_nxf)
     if n_app:
         inl.report.append("%d list-building loops (xs = []; for ...: xs.append(v)) read as list comprehensions" % n_app)
     if sym_helpers:
